@@ -357,11 +357,61 @@ def run(ctx: Ctx) -> None:
     ]
 
 
+def _same_language(texts: list[str | None]) -> bool:
+    """all texts are diagrams with one language (Lean semantics, loops <= 2), or none is a diagram"""
+    if any(t is None for t in texts):
+        return all(t is None for t in texts)
+    parsed = pvlib.lean([{"op": "dg.parse", "text": t} for t in texts])
+    oks = [p.get("ok") for p in parsed]
+    if not all(oks):
+        return not any(oks)
+    blks = [norm_blk(p["blk"]) for p in parsed]
+    reqs = []
+    for b in blks[1:]:
+        if json.dumps(b) != json.dumps(blks[0]):
+            reqs += [{"op": "dg.subset", "learned": b, "source": blks[0], "k": 2, "cap": 200, "limit": 20000},
+                     {"op": "dg.subset", "learned": blks[0], "source": b, "k": 2, "cap": 200, "limit": 20000}]
+    return not any(x.get("rejected") for x in (pvlib.lean(reqs) if reqs else []))
+
+
 def replay(data: dict[str, Any]) -> int:
+    """re-decide the recorded case: (1) ingestion of the jobs as given, reversed, with one job twice and as one flat
+    interleaved stream gives one model; (2) the diagrams under hash seeds 0-7 have one language; (3) if the case records
+    a workflow learnt before in the same interpreter, the diagram after it has the language of the diagram alone"""
     inp = data["input"]
     jobs = inp["jobs_pv"]
-    reps = pvlib.run_requests([{"op": "learn", "chunks": [jobs], "hash_seed": hs, "timeout": 60} for hs in (0, 1, 2, 3)])
-    texts = [r.get("text") or r.get("error") for r in reps]
-    for hs, t in enumerate(texts):
-        print(f"--- hash seed {hs}\n{t}")
-    return 0 if len({t for t in texts}) == 1 else 1
+    rc = 0
+    flat: list[Any] = []
+    queues = [list(j) for j in jobs]
+    while any(queues):
+        for q in queues:
+            if q:
+                flat.append(q.pop(0))
+    dup = [list(j) for j in jobs] + [[{**e, "jobId": e["jobId"] + "-again", "eventId": e["eventId"] + "-again",
+                                       "previousEventIds": [p + "-again" for p in e["previousEventIds"]]} for e in jobs[0]]]
+    reqs = [{"op": "ingest", "jobs": jobs, "hash_seed": 0}, {"op": "ingest", "jobs": list(reversed(jobs)), "hash_seed": 0},
+            {"op": "ingest", "jobs": dup, "hash_seed": 0}, {"op": "ingest", "flat": flat, "hash_seed": 0}]
+    models = [r.get("model", r.get("error")) for r in pvlib.run_requests_fresh(reqs)]
+    if any(m != models[0] for m in models[1:]):
+        print("ingestion: the presentations give different models")
+        rc = 1
+    reps = pvlib.run_requests_fresh([{"op": "learn", "chunks": [jobs], "hash_seed": hs, "uuid_seed": inp.get("uuid_seed", 0),
+                                      "timeout": 60} for hs in range(8)])
+    texts = [r.get("text") for r in reps]
+    if not _same_language(texts):
+        print("hash seeds 0-7: the diagrams do not have one language (or only some runs succeed)")
+        rc = 1
+    if "learnt_before" in inp:
+        w = pvlib.Worker(0)
+        try:
+            w.send({"op": "learn", "chunks": [inp["learnt_before"]], "uuid_seed": 1, "timeout": 60})
+            w.recv()
+            w.send({"op": "learn", "chunks": [jobs], "uuid_seed": inp.get("uuid_seed", 0), "timeout": 60})
+            after = w.recv().get("text")
+        finally:
+            w.close()
+        if not _same_language([texts[0], after]):
+            print("learnt after another workflow in the same interpreter: another language than alone")
+            rc = 1
+    print("ok" if rc == 0 else "DIFFERS")
+    return rc
